@@ -622,11 +622,15 @@ class Interp:
                 return True
         if self.arith_feasibility:
             from . import intify
-            res, payload, _ = intify.solve(list(st.pc) + list(G.facts) + [cond], 5000)
+            res, payload, _ = intify.solve(list(st.pc) + list(G.facts) + [cond], 1500, quick=True)
             self.stats['feas_int'] = self.stats.get('feas_int', 0) + 1
             if res == 'unsat':
                 return False
             if res == 'sat':
+                return True
+            if payload and 'not in the integer fragment' not in str(payload):
+                # undecided non-linear query: keep the branch (over-approximates the explored paths; obligations re-decide)
+                self.stats['feas_unknown'] = self.stats.get('feas_unknown', 0) + 1
                 return True
         try:
             t0 = time.time()
